@@ -1,5 +1,5 @@
 use std::fmt;
-use std::io::ErrorKind;
+use std::io::{self, ErrorKind};
 use std::ptr;
 #[cfg(not(may_verif))]
 use std::sync::atomic::{AtomicBool, AtomicPtr, Ordering};
@@ -13,8 +13,8 @@ use crate::coroutine_impl::{co_cancel_data, run_coroutine, CoroutineImpl, EventS
 use crate::scheduler::get_scheduler;
 use crate::sync::atomic_dur::AtomicDuration;
 use crate::sync::AtomicOption;
-use crate::timeout_list::TimeoutHandle;
-use crate::yield_now::{get_co_para, yield_now, yield_with};
+use crate::timeout_list::{now, TimeoutHandle};
+use crate::yield_now::{get_co_para, set_co_para, yield_now, yield_with};
 
 #[derive(Debug, Copy, Clone, Eq, PartialEq)]
 pub enum ParkError {
@@ -197,10 +197,9 @@ impl EventSource for Park {
         let cancel = co_cancel_data(&co);
         // if we share the same park, the previous timer may wake up it by false
         // if we not deleted the timer in time
-        let timeout_handle = self
-            .timeout
-            .take()
-            .map(|dur| get_scheduler().add_timer(dur, self.wait_co.clone()));
+        let dur = self.timeout.take();
+        let deadline = dur.map(|dur| now() + dur.as_nanos() as u64);
+        let timeout_handle = dur.map(|dur| get_scheduler().add_timer(dur, self.wait_co.clone()));
         self.set_timeout_handle(timeout_handle);
 
         let _g = self.delay_drop();
@@ -217,6 +216,18 @@ impl EventSource for Park {
             let co = self.wait_co.take();
             drop(_g);
             if let Some(co) = co {
+                run_coroutine(co);
+            }
+            return;
+        }
+
+        // the timer may have expired before the coroutine was registered and found
+        // nothing to wake up: time out here, or the park would never return
+        if deadline.is_some_and(|d| now() >= d) {
+            let co = self.wait_co.take();
+            drop(_g);
+            if let Some(mut co) = co {
+                set_co_para(&mut co, io::Error::new(ErrorKind::TimedOut, "timeout"));
                 run_coroutine(co);
             }
             return;
